@@ -265,30 +265,65 @@ def rule_usage(chk):
 
 
 def rule_out(chk):
+    """Shape of the copy-in / copy-out trampoline, with every variable identified by its role (not its name)."""
     f = chk.facts
     tr = f.fn("generate_function_out_trampoline_body", MSL)
     if not chk.anchor("C02.anchor/trampoline", tr, "generate_function_out_trampoline_body"):
         return
-    # if param.input_modifier != In { local decl; statements_after assignment; params.push(local) } else { params.push(input) }
+
+    def var_ids(n):
+        return {v["id"] for v in F.exprs(n, "Var")}
+
+    def pushes(n):
+        out = []
+        for cc in F.exprs(n, "Call"):
+            if short(cc.get("fn") or "") == "push" and len(cc.get("args", [])) > 1:
+                rv = F.leftmost_var(cc["args"][0])
+                if rv is not None:
+                    out.append((rv["id"], cc))
+        return out
+    lets = {}
+    for s in F.walk(tr["thir"]):
+        if s.get("k") == "LetStmt" and "init" in s and s["pat"].get("k") == "Bind":
+            lets[s["pat"]["id"]] = s["init"]
     ok_branch = False
+    roles = {}
     for n in F.exprs(tr["thir"], "If"):
         c = F.strip(n["cond"])
         is_ne_in = ((c.get("k") == "Binary" and c.get("op") == "Ne") or (c.get("k") == "Call" and short(c.get("fn") or "") == "ne")) and \
             any((F.adt_ctor(a) or (0, 0))[1] == "In" for a in F.walk(c) if a.get("k") == "Adt")
-        if not is_ne_in:
+        if not is_ne_in or "else" not in n:
             continue
-        then, els = n["then"], n.get("else", {})
-        pushes_then = [(F.leftmost_var(cc["args"][0]) or {}).get("name") for cc in F.exprs(then, "Call") if short(cc.get("fn") or "") == "push"]
-        vardef = any(short(a["adt"]) == "StatementKind" and a.get("variant") == "Var" for a in F.exprs(then, "Adt"))
+        then, els = n["then"], n["else"]
+        ep = pushes(els)
+        if len(ep) != 1:
+            continue
+        args_vec, epush = ep[0]
+        input_ids = var_ids(epush["args"][1])                       # what an `in` parameter passes: the parameter's own name
+        tp = pushes(then)
+        local_pushes = [cc for rid, cc in tp if rid == args_vec]
+        local_ids = set()
+        for cc in local_pushes:
+            local_ids |= var_ids(cc["args"][1])
+        local_ids -= input_ids
+        # the local's name must be derived from nothing else than a fresh name (a let in the then-branch)
+        vardefs = [a for a in F.exprs(then, "Adt") if short(a["adt"]) == "StatementKind" and a.get("variant") == "Var"]
+        vardef = bool(vardefs)
         assign_back = False
-        for a in F.exprs(then, "Adt"):
-            if short(a["adt"]) == "Expression" and a.get("variant") == "BinaryOperation":
-                fl = {x["f"]: x["e"] for x in a["fields"]}
-                op = F.adt_ctor(fl["0"])
-                lv = [v.get("name") for v in F.exprs(fl["1"], "Var")]
-                rv = [v.get("name") for v in F.exprs(fl["2"], "Var")]
-                assign_back = bool(op and op[1] == "Assignment" and "input_name" in lv and "local_name" in rv)
-        # copy-in only for InOut
+        after_vec = None
+        for rid, cc in tp:
+            for a in F.exprs(cc["args"][1], "Adt"):
+                if short(a["adt"]) == "Expression" and a.get("variant") == "BinaryOperation":
+                    fl = {str(x["f"]): x["e"] for x in a["fields"]}
+                    op = F.adt_ctor(fl["0"])
+                    if op and op[1] == "Assignment" and (var_ids(fl["1"]) & input_ids) and (var_ids(fl["2"]) & local_ids) and not (var_ids(fl["1"]) & local_ids):
+                        assign_back = True
+                        after_vec = rid
+        decl_vec = None
+        for rid, cc in tp:
+            if any(short(a["adt"]) == "StatementKind" and a.get("variant") == "Var" for a in F.exprs(cc["args"][1], "Adt")):
+                decl_vec = rid
+        # copy-in only for InOut: `if modifier == InOut { Some(<input name>) } else { None }`
         copy_in = False
         for n2 in F.exprs(then, "If"):
             c2 = F.strip(n2["cond"])
@@ -296,22 +331,23 @@ def rule_out(chk):
                 any((F.adt_ctor(a) or (0, 0))[1] == "InOut" for a in F.walk(c2) if a.get("k") == "Adt")
             th, el = F.adt_ctor(F.tail(n2["then"])), F.adt_ctor(F.tail(n2.get("else", {})))
             if is_eq_inout and th and th[1] == "Some" and el and el[1] == "None":
-                copy_in = any(v.get("name") == "input_name" for v in F.exprs(n2["then"], "Var"))
-        passes_local = "params" in pushes_then and any(v.get("name") == "local_name" for cc in F.exprs(then, "Call") if short(cc.get("fn") or "") == "push"
-                                                        and (F.leftmost_var(cc["args"][0]) or {}).get("name") == "params" for v in F.exprs(cc["args"][1], "Var"))
-        passes_input = any(v.get("name") == "input_name" for cc in F.exprs(els, "Call") if short(cc.get("fn") or "") == "push" for v in F.exprs(cc["args"][1], "Var"))
-        ok_branch = vardef and assign_back and copy_in and passes_local and passes_input and "statements_after" in pushes_then and "statements" in pushes_then
+                copy_in = bool(var_ids(n2["then"]) & input_ids) and not (var_ids(n2["then"]) & local_ids)
+        passes_local = bool(local_pushes) and bool(local_ids)
+        distinct = len({args_vec, after_vec, decl_vec}) == 3 and None not in (after_vec, decl_vec)
+        ok_branch = vardef and assign_back and copy_in and passes_local and distinct
+        roles = {"args": args_vec, "after": after_vec, "decl": decl_vec}
         chk.ob("C02.out/copy-in-out", ok_branch,
                "non-`in` parameters: local declared (initialised iff inout), local passed, copied back after the call; `in` parameters passed directly" if ok_branch else
-               "out/inout trampoline shape changed (vardef=%s assign-back=%s copy-in-iff-inout=%s passes-local=%s passes-input=%s)" % (vardef, assign_back, copy_in, passes_local, passes_input),
+               "out/inout trampoline shape changed (local declared=%s assign-back=%s copy-in-iff-inout=%s passes-local=%s three distinct lists=%s)" % (vardef, assign_back, copy_in, passes_local, distinct),
                where(tr, n))
     if not ok_branch:
         chk.ob("C02.out/copy-in-out", False, "anchor-missing or wrong: `if input_modifier != In {..} else {..}` of the trampoline", where(tr))
-    # order: statements (locals), call, statements_after
-    appends = [(c.get("ln") or 0, (F.leftmost_var(c["args"][1]) or {}).get("name")) for c in F.exprs(tr["thir"], "Call") if short(c.get("fn") or "") in ("append", "extend")]
-    after = [ln for ln, nm in appends if nm == "statements_after"]
+        return
+    # order: declarations, call, then the copy-back list is appended after the statement holding the call
+    appends = [(c.get("ln") or 0, (F.leftmost_var(c["args"][1]) or {}).get("id")) for c in F.exprs(tr["thir"], "Call") if short(c.get("fn") or "") in ("append", "extend") and len(c.get("args", [])) > 1]
+    after = [ln for ln, vid in appends if vid == roles["after"]]
     calls = [a.get("ln") or 0 for a in F.exprs(tr["thir"], "Adt") if short(a["adt"]) == "Expression" and a.get("variant") == "Call" and
-             any(v.get("name") == "params" for v in F.exprs(a, "Var"))]
+             any(v["id"] == roles["args"] for v in F.exprs(a, "Var"))]
     ok = bool(after) and bool(calls) and min(after) > max(calls)
     chk.ob("C02.out/copy-back-after-call", ok, "the copy-back statements are appended after the call" if ok else
            "the copy-back statements are no longer appended after the call to the real function", where(tr))
